@@ -515,7 +515,8 @@ func earliestEdgeLine(e *d2graph.Edge) int {
 }
 
 // nearPerimeter: "yes" when one of the short probes through p (8 directions, half length 2 px) crosses an element of
-// the shape's perimeter, "no" when none does, "rect" when the shape has no perimeter of its own (its outline is the box).
+// the shape's perimeter, "near" when only probes of half length 8 px do, "no" when none does, "rect" when the shape has
+// no perimeter of its own (its outline is the box).
 func nearPerimeter(o *d2graph.Object, p *geo.Point) string {
 	if o == nil || o.Box == nil || o.TopLeft == nil || p == nil {
 		return "rect"
@@ -524,17 +525,25 @@ func nearPerimeter(o *d2graph.Object, p *geo.Point) string {
 	if len(per) == 0 {
 		return "rect"
 	}
-	const r = 2.0
 	dirs := [][2]float64{{1, 0}, {0, 1}, {1, 1}, {1, -1}, {2, 1}, {1, 2}, {2, -1}, {1, -2}}
-	for _, d := range dirs {
-		n := math.Hypot(d[0], d[1])
-		dx, dy := d[0]/n*r, d[1]/n*r
-		seg := geo.Segment{Start: geo.NewPoint(p.X-dx, p.Y-dy), End: geo.NewPoint(p.X+dx, p.Y+dy)}
-		for _, el := range per {
-			if len(el.Intersections(seg)) > 0 {
-				return "yes"
+	probe := func(r float64) bool {
+		for _, d := range dirs {
+			n := math.Hypot(d[0], d[1])
+			dx, dy := d[0]/n*r, d[1]/n*r
+			seg := geo.Segment{Start: geo.NewPoint(p.X-dx, p.Y-dy), End: geo.NewPoint(p.X+dx, p.Y+dy)}
+			for _, el := range per {
+				if len(el.Intersections(seg)) > 0 {
+					return true
+				}
 			}
 		}
+		return false
+	}
+	if probe(2) {
+		return "yes"
+	}
+	if probe(8) {
+		return "near"
 	}
 	return "no"
 }
